@@ -1,4 +1,5 @@
 import MlModel.Lemmas.Resume
+import MlModel.Lemmas.ResumeChain
 import MlModel.Lemmas.AggCore
 /-!
 # C10 — checkpoint and resume continue exactly where iteration stopped
@@ -156,7 +157,8 @@ runner's data source is the upstream runner's iterator, a checkpoint of the chai
 source of the downstream one (`Model/Resume.lean: pipeRec`).  For every history of the chained
 iterator that ends drained: the delivered outputs equal the uninterrupted run's, and so do the
 aggregates of **both** runners — the upstream aggregate is the aggregate of all upstream outputs.
-(By `pipeRec_refines` the same holds for chains of any length.) -/
+(Chains of any length, with an aggregate at any subset of the stages, and the bookkeeping of
+`_ChainedRunnerIterator.from_state`: `C10_pipeline_chain_any` below.) -/
 theorem C10_pipeline_chain {γ X₂ S₂ Res₂ : Type} (h : Refines R Inv rem) (f : α → List β)
     (hf : ∀ a, (f a).length ≤ 1) (g : β → List γ) (hg : ∀ b, (g b).length ≤ 1)
     (m : Agg.Mergeable X S Res) (batchOf : β → List X)
@@ -187,6 +189,246 @@ theorem C10_pipeline_chain {γ X₂ S₂ Res₂ : Type} (h : Refines R Inv rem) 
   obtain ⟨u, u1, u2, u3, u4, u5⟩ := PipeRun.drained h' g hg m₂ batchOf₂ _ hi' [] k hk
   refine ⟨r, u, h1, by simpa using u1, h2, by rw [h2, u2], by rw [h3, u3], up r.p h4 h5, ?_⟩
   rw [up r.p h4 h5, up u.p u4 u5]
+
+/-! ## Chains of named transforms of ANY length, aggregates at ANY stage
+
+`Model/ResumeChain.lean`: a chain is a list of stages (downstream first), its iterator the nesting of
+runner iterators (`chainRec`), the user-visible object the `_ChainedRunnerIterator` (`ChainIt`:
+the last iterator + `_iterators` as hop counts along `_data_sources`), `from_state` = restore the
+last iterator (which restores the whole upstream chain as its data sources) + the walk up the
+restored chain. -/
+
+/-- **`_ChainedRunnerIterator.from_state` tracks every stage of the restored chain exactly once**:
+for a chain of `n ≥ 1` stages the walk succeeds and the restored `_iterators` has `n` entries, no
+iterator twice, every stage (hop count `< n`) among them, and entry `i` is the restored iterator of
+stage `i` (`n - 1 - i` hops upstream of the restored last one). -/
+theorem C10_chain_restore_tracks_every_stage (n : Nat) (hn : 0 < n) :
+    ∃ t, ChainIt.walk n (n - 1) [0] = .ok t ∧ t.length = n ∧ t.Nodup ∧ (∀ d, d ∈ t ↔ d < n) ∧
+      ∀ i, i < n → t[i]? = some (n - 1 - i) :=
+  ⟨depthsOf n, walk_all n hn, depthsOf_length n, depthsOf_nodup n, mem_depthsOf n, depthsOf_getElem? n⟩
+
+/-- a walk that would leave the restored chain (more rounds than upstream stages) is the
+`AssertionError` of `_ChainedRunnerIterator.__init__`, never a silently shorter or longer list -/
+theorem C10_chain_walk_errors (n : Nat) (hn : 0 < n) : ChainIt.walk n n [0] = .error .assertion := by
+  have hw : ∀ (k : Nat) (its : List Nat), ChainIt.walk n k its = .ok (depthsOf n) → 0 < n →
+      ChainIt.walk n (k + 1) its = .error .assertion := by
+    intro k
+    induction k with
+    | zero =>
+      intro its h0 hn
+      simp only [ChainIt.walk] at h0
+      injection h0 with h0
+      subst h0
+      obtain ⟨m, rfl⟩ : ∃ m, n = m + 1 := ⟨n - 1, by omega⟩
+      simp [ChainIt.walk, depthsOf]
+    | succ k ih =>
+      intro its h0 hn
+      cases its with
+      | nil => simp [ChainIt.walk] at h0
+      | cons d rest =>
+        by_cases hd : d + 1 < n
+        · simp only [ChainIt.walk, hd, if_true] at h0
+          have := ih _ h0 hn
+          rw [ChainIt.walk]
+          simp only [hd, if_true]
+          exact this
+        · simp [ChainIt.walk, hd] at h0
+  have := hw (n - 1) [0] (walk_all n hn) hn
+  have e : n - 1 + 1 = n := by omega
+  rw [e] at this
+  exact this
+
+section chains
+variable {R : Recoverable β} {Inv : R.It → Prop} {rem : R.It → List β}
+
+/-- **One `from_state` on a chain of any length** (any cut, any generation — `c` is any reachable
+chained iterator): restoring from the state just captured succeeds, the restored last iterator
+will deliver exactly what `c` would still have delivered, every stage gets back exactly the
+aggregation state it had at the checkpoint, every stage is tracked exactly once, and therefore
+`agg_state` / `agg_result` of the restored iterator are those of `c`.  Checkpointing the restored
+iterator immediately yields a state that restores to the same again (second conjunct applied
+twice). -/
+theorem C10_chain_from_state (h : Refines R Inv rem) (E : List β) (s : Stage β X S Res)
+    (ss : List (Stage β X S Res)) (hf : ∀ t ∈ s :: ss, ∀ a, (t.f a).length ≤ 1)
+    (c : ChainIt R (s :: ss)) (hi : chainInv Inv rem E (s :: ss) c.top)
+    (ht : c.tracked = depthsOf (s :: ss).length) :
+    ∃ c', ChainIt.fromState R (s :: ss) c (ChainIt.state R (s :: ss) c) = .ok c' ∧
+      chainInv Inv rem E (s :: ss) c'.top ∧
+      chainRem rem (s :: ss) c'.top = chainRem rem (s :: ss) c.top ∧
+      aggsDown R (s :: ss) c'.top = aggsDown R (s :: ss) c.top ∧
+      c'.tracked = depthsOf (s :: ss).length ∧
+      ChainIt.aggState R (s :: ss) c' = ChainIt.aggState R (s :: ss) c := by
+  obtain ⟨it', h1, h2, h3⟩ := (chain_refines h E (s :: ss) hf).1.restore_state c.top hi
+  have hw : ChainIt.walk (s :: ss).length (c.tracked.length - 1) [0] = .ok (depthsOf (s :: ss).length) := by
+    rw [ht, depthsOf_length]; exact walk_all _ (by simp)
+  have ha := chain_restore_aggs (s :: ss) c.top it' h1
+  refine ⟨⟨it', depthsOf (s :: ss).length⟩, ?_, h2, h3, ha, rfl, ?_⟩
+  · simp only [ChainIt.fromState, ChainIt.state, h1, hw, bind, Except.bind, pure, Except.pure]
+  · rw [aggState_tracked _ _ rfl, aggState_tracked _ _ ht, ha]
+
+/-- **C10 for chains of any length with aggregates at any stage.**  For every chain of `n ≥ 1`
+row-wise named transforms over any recoverable source, every history (any number of checkpoints
+and restores, cuts anywhere incl. before the first and after the last element, restores of
+restored iterators, checkpoints taken immediately after a restore) that ends drained:
+
+* the delivered elements are exactly the uninterrupted run's (`chainOut`), none repeated, none
+  skipped;
+* the aggregation state of EVERY stage — not only of the last two — is the aggregate of all the
+  outputs of that stage (`finalAggs`), hence equal to the uninterrupted run's;
+* `_iterators` tracks every stage exactly once, and `agg_state` / `agg_result` / the returned
+  `AggregateResult` (`ChainIt.aggState`) list every stage that has an aggregate once, upstream
+  first, with exactly that final state — the same as the uninterrupted run. -/
+theorem C10_pipeline_chain_any (h : Refines R Inv rem) (s : Stage β X S Res)
+    (ss : List (Stage β X S Res)) (hf : ∀ t ∈ s :: ss, ∀ a, (t.f a).length ≤ 1)
+    (it : R.It) (hi : Inv it) (ops : List Op) (k : Nat)
+    (hk : (chainOut (s :: ss) (rem it)).length < k) :
+    ∃ r u,
+      ChainRun.run R (s :: ss) (ChainRun.init R (s :: ss) it) (ops ++ [.take k]) = .ok r ∧
+      ChainRun.run R (s :: ss) (ChainRun.init R (s :: ss) it) [.take k] = .ok u ∧
+      r.delivered = chainOut (s :: ss) (rem it) ∧ r.delivered = u.delivered ∧
+      aggsDown R (s :: ss) r.c.top = finalAggs (s :: ss) (rem it) ∧
+      aggsDown R (s :: ss) r.c.top = aggsDown R (s :: ss) u.c.top ∧
+      r.c.tracked = depthsOf (s :: ss).length ∧
+      ChainIt.aggState R (s :: ss) r.c =
+        ((s :: ss).zip (finalAggs (s :: ss) (rem it))).reverse.filterMap
+          (fun p => if p.1.hasAgg then some (p.1.name, p.2) else none) ∧
+      ChainIt.aggState R (s :: ss) r.c = ChainIt.aggState R (s :: ss) u.c := by
+  obtain ⟨href, hx⟩ := chain_refines h (rem it) (s :: ss) hf
+  obtain ⟨fi, fr⟩ := chain_fresh (Inv := Inv) (rem := rem) it hi (s :: ss)
+  have hn : 0 < (s :: ss).length := by simp
+  have key : ∀ ops' : List Op, ∃ r,
+      ChainRun.run R (s :: ss) (ChainRun.init R (s :: ss) it) (ops' ++ [.take k]) = .ok r ∧
+      r.delivered = chainOut (s :: ss) (rem it) ∧
+      aggsDown R (s :: ss) r.c.top = finalAggs (s :: ss) (rem it) ∧
+      r.c.tracked = depthsOf (s :: ss).length := by
+    intro ops'
+    obtain ⟨q, q1, q2, q3, q4⟩ := href.history_drained_exh (chainExh (s :: ss)) hx
+      (chainFresh R (s :: ss) it) fi ops' k (by rw [fr]; exact hk)
+    obtain ⟨r, r1, r2, r3⟩ := ChainRun.run_sim hn (ops' ++ [.take k]) (ChainRun.init R (s :: ss) it) rfl q
+      (by rw [ChainRun.init_toSrc]; exact q1)
+    refine ⟨r, r1, ?_, ?_, r3⟩
+    · have : r.delivered = q.delivered := by rw [← r2]; rfl
+      rw [this, q2, fr]
+    · have : r.c.top = q.it := by rw [← r2]; rfl
+      rw [this]
+      exact aggsDown_final (rem it) (s :: ss) q.it q3 q4
+  obtain ⟨r, r1, r2, r3, r4⟩ := key ops
+  obtain ⟨u, u1, u2, u3, u4⟩ := key []
+  have ra := aggState_tracked (s :: ss) r.c r4
+  have ua := aggState_tracked (s :: ss) u.c u4
+  refine ⟨r, u, r1, by simpa using u1, r2, by rw [r2, u2], r3, by rw [r3, u3], r4, ?_, ?_⟩
+  · rw [ra, r3]
+  · rw [ra, ua, r3, u3]
+
+/-- … and at EVERY moment of every history (not only at the end): what was delivered on the
+surviving timeline followed by what the chained iterator will still deliver is the uninterrupted
+run's output; the aggregation state of every stage is the aggregate of exactly the prefix of that
+stage's uninterrupted output stream that the stage has delivered so far (`consumedAggs`: the whole
+stream minus what the stage will still deliver) — in particular right after a restore at any cut and
+in any generation; and `_iterators` tracks every stage exactly once. -/
+theorem C10_pipeline_chain_any_prefix (h : Refines R Inv rem) (s : Stage β X S Res)
+    (ss : List (Stage β X S Res)) (hf : ∀ t ∈ s :: ss, ∀ a, (t.f a).length ≤ 1)
+    (it : R.It) (hi : Inv it) (ops : List Op) :
+    ∃ r, ChainRun.run R (s :: ss) (ChainRun.init R (s :: ss) it) ops = .ok r ∧
+      r.delivered ++ chainRem rem (s :: ss) r.c.top = chainOut (s :: ss) (rem it) ∧
+      chainInv Inv rem (rem it) (s :: ss) r.c.top ∧
+      aggsDown R (s :: ss) r.c.top = consumedAggs rem (s :: ss) r.c.top (rem it) ∧
+      r.c.tracked = depthsOf (s :: ss).length := by
+  obtain ⟨href, _⟩ := chain_refines h (rem it) (s :: ss) hf
+  obtain ⟨fi, fr⟩ := chain_fresh (Inv := Inv) (rem := rem) it hi (s :: ss)
+  obtain ⟨q, q1, q2, q3⟩ := href.history (chainFresh R (s :: ss) it) fi ops
+  obtain ⟨r, r1, r2, r3⟩ := ChainRun.run_sim (by simp) ops (ChainRun.init R (s :: ss) it) rfl q
+    (by rw [ChainRun.init_toSrc]; exact q1)
+  have e1 : r.delivered = q.delivered := by rw [← r2]; rfl
+  have e2 : r.c.top = q.it := by rw [← r2]; rfl
+  exact ⟨r, r1, by rw [e1, e2, q3, fr], by rw [e2]; exact q2,
+    aggsDown_consumed (rem it) (s :: ss) r.c.top (by rw [e2]; exact q2), r3⟩
+
+/-- `from_state` reads nothing of its receiver but the number of tracked iterators (and the runners,
+which are the chain itself): restoring through the running iterator (`it.from_state(state)`) and
+through a fresh one (`pipeline.make().iterate().from_state(state)`, the idiom of the tests) is the
+same. -/
+theorem C10_chain_from_state_receiver (rs : List (Stage β X S Res)) (c₁ c₂ : ChainIt R rs)
+    (hl : c₁.tracked.length = c₂.tracked.length) (st : (chainRec R rs).St) :
+    ChainIt.fromState R rs c₁ st = ChainIt.fromState R rs c₂ st := by
+  simp only [ChainIt.fromState, hl]
+
+/-- the result every stage reports when its aggregate is fed, as ONE batch, all the rows of all the
+outputs of that stage in the uninterrupted run (stages downstream first) -/
+def oneBatchResults : List (Stage β X S Res) → List β → List Res
+  | [], _ => []
+  | s :: ss, E =>
+    s.m.result (s.m.ofBatch (((chainOut (s :: ss) E).map s.batchOf).flatten)) :: oneBatchResults ss E
+
+/-- With lawful aggregates (`Lemmas/AggCore.lean`, the C01 laws) at every stage, the result of
+EVERY stage after any interrupted history is the result of one accumulator fed all rows of that
+stage's uninterrupted output as a single batch. -/
+theorem C10_pipeline_chain_any_onebatch (h : Refines R Inv rem) (s : Stage β X S Res)
+    (ss : List (Stage β X S Res)) (hf : ∀ t ∈ s :: ss, ∀ a, (t.f a).length ≤ 1)
+    (hl : ∀ t ∈ s :: ss, ∃ Eqv : S → S → Prop, Agg.Lawful t.m Eqv)
+    (it : R.It) (hi : Inv it) (ops : List Op) (k : Nat)
+    (hk : (chainOut (s :: ss) (rem it)).length < k) :
+    ∃ r, ChainRun.run R (s :: ss) (ChainRun.init R (s :: ss) it) (ops ++ [.take k]) = .ok r ∧
+      ((s :: ss).zip (aggsDown R (s :: ss) r.c.top)).map (fun p => p.1.m.result p.2) =
+        oneBatchResults (s :: ss) (rem it) := by
+  obtain ⟨r, _, r1, _, _, _, r3, _⟩ := C10_pipeline_chain_any h s ss hf it hi ops k hk
+  refine ⟨r, r1, ?_⟩
+  rw [r3]
+  have : ∀ (rs : List (Stage β X S Res)) (E : List β),
+      (∀ t ∈ rs, ∃ Eqv : S → S → Prop, Agg.Lawful t.m Eqv) →
+      (rs.zip (finalAggs rs E)).map (fun p => p.1.m.result p.2) = oneBatchResults rs E := by
+    intro rs E
+    induction rs with
+    | nil => intro _; rfl
+    | cons t ts ih =>
+      intro hl
+      obtain ⟨Eqv, hlaw⟩ := hl t (List.mem_cons_self ..)
+      simp only [finalAggs, oneBatchResults, List.zip_cons_cons, List.map_cons]
+      rw [ih (fun u hu => hl u (List.mem_cons_of_mem _ hu))]
+      congr 1
+      exact hlaw.result_congr (hlaw.feed_eq _)
+  exact this (s :: ss) (rem it) hl
+
+/-- **… over a `SequenceDataSource`** with any accepted chain of `shard(i, k, offset)` calls: no
+hypothesis left but "every stage is row-wise". -/
+theorem C10_pipeline_chain_any_seq (data : List β) (chain : Chain) (src : Src)
+    (hs : chain.foldlM Src.shard (Src.root data.length) = .ok src)
+    (s : Stage β X S Res) (ss : List (Stage β X S Res))
+    (hf : ∀ t ∈ s :: ss, ∀ a, (t.f a).length ≤ 1) (ops : List Op) (k : Nat)
+    (hk : (chainOut (s :: ss) (seqElems data src)).length < k) :
+    ∃ r u,
+      ChainRun.run (seqRec data) (s :: ss) (ChainRun.init _ (s :: ss) src.iterate) (ops ++ [.take k]) = .ok r ∧
+      ChainRun.run (seqRec data) (s :: ss) (ChainRun.init _ (s :: ss) src.iterate) [.take k] = .ok u ∧
+      r.delivered = chainOut (s :: ss) (seqElems data src) ∧
+      aggsDown _ (s :: ss) r.c.top = finalAggs (s :: ss) (seqElems data src) ∧
+      ChainIt.aggState _ (s :: ss) r.c = ChainIt.aggState _ (s :: ss) u.c ∧
+      ChainIt.aggState _ (s :: ss) r.c =
+        ((s :: ss).zip (finalAggs (s :: ss) (seqElems data src))).reverse.filterMap
+          (fun p => if p.1.hasAgg then some (p.1.name, p.2) else none) := by
+  have hw : src.WF data.length := Src.WF.fromState (n := data.length) (ch := chain) hs
+  have hi : SeqIt.Inv data.length src.iterate := ⟨hw, Nat.le_refl _⟩
+  obtain ⟨r, u, r1, u1, r2, _, r3, _, _, r5, r6⟩ :=
+    C10_pipeline_chain_any (seqRec_refines data) s ss hf src.iterate hi ops k hk
+  exact ⟨r, u, r1, u1, r2, r3, r6, r5⟩
+
+/-- **… over a `ShardedIterable`** (round-robin shard of any iterable, any start index). -/
+theorem C10_pipeline_chain_any_iter (data : List β) (cfg : Cfg) (hn : 1 ≤ cfg.num)
+    (s : Stage β X S Res) (ss : List (Stage β X S Res))
+    (hf : ∀ t ∈ s :: ss, ∀ a, (t.f a).length ≤ 1) (ops : List Op) (k : Nat)
+    (hk : (chainOut (s :: ss) (iterElems data cfg)).length < k) :
+    ∃ r u,
+      ChainRun.run (iterRec data) (s :: ss) (ChainRun.init _ (s :: ss) (⟨cfg, 0⟩ : IterIt)) (ops ++ [.take k]) = .ok r ∧
+      ChainRun.run (iterRec data) (s :: ss) (ChainRun.init _ (s :: ss) (⟨cfg, 0⟩ : IterIt)) [.take k] = .ok u ∧
+      r.delivered = chainOut (s :: ss) (iterElems data cfg) ∧
+      aggsDown _ (s :: ss) r.c.top = finalAggs (s :: ss) (iterElems data cfg) ∧
+      ChainIt.aggState _ (s :: ss) r.c = ChainIt.aggState _ (s :: ss) u.c := by
+  have e : IterIt.rem data (⟨cfg, 0⟩ : IterIt) = iterElems data cfg := by simp [IterIt.rem, iterElems]
+  obtain ⟨r, u, r1, u1, r2, _, r3, _, _, _, r6⟩ :=
+    C10_pipeline_chain_any (iterRec_refines data) s ss hf (⟨cfg, 0⟩ : IterIt) hn ops k (by rw [e]; exact hk)
+  rw [e] at r2 r3
+  exact ⟨r, u, r1, u1, r2, r3, r6⟩
+
+end chains
 
 /-! ## Chains that buffer (re-batching): the exact loss (finding F16)
 
@@ -294,5 +536,35 @@ example :
         (PipeRun.init (ρ := Nat) Ra Pb (PipeIt.fresh _ Pa (Src.root 5).iterate (0, 0)))
         [.take 1, .ckpt, .restore, .take 2, .ckpt, .restore, .take 100]).toOption.map
       fun r => (Ev.delivered r.trace, r.p.src.agg)) = some ([2, 4, 6, 8, 10], (15, 5)) := by decide
+
+/-- a chain of THREE named stages (map, filter, map) with aggregates at the first and the last
+stage, under a history with restores of restored iterators, a restore before the first element
+and a checkpoint taken immediately after a restore: outputs, `_iterators`, and `agg_state`
+(every stage with an aggregate, upstream first) -/
+def sumCountN : Agg.Mergeable Nat (Nat × Nat) (Nat × Nat) :=
+  ⟨(0, 0), fun xs => (xs.foldl (· + ·) 0, xs.length), fun s t => (s.1 + t.1, s.2 + t.2), id⟩
+
+def threeStages : List (Stage Nat Nat (Nat × Nat) (Nat × Nat)) :=
+  [⟨"c", fun x => [x + 3], sumCountN, fun b => [b], true⟩,
+   ⟨"b", fun x => if x % 4 = 0 then [] else [x], sumCountN, fun b => [b], false⟩,
+   ⟨"a", fun x => [2 * x], sumCountN, fun b => [b], true⟩]
+
+example : ∀ t ∈ threeStages, ∀ a, (t.f a).length ≤ 1 := by
+  intro t ht a
+  simp only [threeStages, List.mem_cons, List.not_mem_nil, or_false] at ht
+  rcases ht with rfl | rfl | rfl
+  · simp
+  · by_cases h : a % 4 = 0 <;> simp [h]
+  · simp
+
+example :
+    ((ChainRun.run (seqRec (List.range 5)) threeStages
+        (ChainRun.init (seqRec (List.range 5)) threeStages (Src.root 5).iterate)
+        [.ckpt, .restore, .take 1, .ckpt, .restore, .ckpt, .restore, .take 1, .ckpt, .take 1, .restore,
+         .take 100]).toOption.map
+      fun r => (r.delivered, r.c.tracked, ChainIt.aggState _ _ r.c)) =
+      some ([5, 9], [2, 1, 0], [("a", (20, 5)), ("c", (14, 2))]) := by decide
+example : chainOut threeStages (List.range 5) = [5, 9] := by decide
+example : finalAggs threeStages (List.range 5) = [(14, 2), (8, 2), (20, 5)] := by decide
 
 end MlModel.C10
